@@ -236,6 +236,73 @@ Section AtomicProofs.
   Proof.
     destruct (arun_inv s _ (ainit_inv progs)) as [_ _ (st & Hchk & Hspec & _)]. eauto.
   Qed.
+
+  (* ---- what the threads were handed is what the history says ---- *)
+
+  Definition tres (t : tid) (tr : list (aevent V)) : list (res V) :=
+    flat_map (fun e => match e with EvRes t' r => if t' =? t then [r] else [] | _ => [] end) tr.
+
+  Definition no_res (evs : list (aevent V)) : Prop := forall t r, ~ In (EvRes t r) evs.
+
+  Lemma tres_no_res evs tr t : no_res evs -> tres t (evs ++ tr) = tres t tr.
+  Proof.
+    intro H. unfold tres. rewrite flat_map_app.
+    replace (flat_map _ evs) with (@nil (res V)); [reflexivity|].
+    symmetry. induction evs as [|e evs IH]; simpl; auto.
+    rewrite IH by (intros t0 r Hin; apply (H t0 r); right; exact Hin).
+    destruct e as [t0 o|t0|t0 r]; simpl; auto. exfalso. apply (H t0 r). left. reflexivity.
+  Qed.
+
+  (* the shape of a step: thread t gets a new state; either no response is
+     logged and its results are unchanged, or exactly its response r is logged
+     and r is appended to its results *)
+  Lemma astep_shape c t ch c' : astep c t ch = Some c' ->
+    exists th th' evs, nth_error (a_threads c) t = Some th /      a_threads c' = set_athread (a_threads c) t th' /\ a_trace c' = evs ++ a_trace c /      ((a_rets th' = a_rets th /\ no_res evs) \/ exists r, a_rets th' = a_rets th ++ [r] /\ evs = [EvRes t r]).
+  Proof.
+    unfold AtomicPool.astep. destruct (nth_error (a_threads c) t) as [th|] eqn:Hth; [|discriminate].
+    assert (N0 : no_res []) by (intros ? ? []).
+    assert (N1 : forall t0, no_res [EvLin t0]) by (intros ? ? ? [E|[]]; discriminate).
+    assert (N2 : forall t0 o, no_res [EvInv t0 o]) by (intros ? ? ? ? [E|[]]; discriminate).
+    destruct (a_pc th) as [|o|old new ver|old new|r].
+    - destruct (a_prog th) as [|o rest]; [discriminate|]. intros [= <-]. simpl.
+      eexists th, _, [EvInv t o]. repeat split; auto. left. simpl. auto.
+    - destruct o as [|v|v|old new].
+      + intros [= <-]. eexists th, _, _. simpl. repeat split; auto. left; simpl; auto.
+      + intros [= <-]. eexists th, _, _. simpl. repeat split; auto. left; simpl; auto.
+      + intros [= <-]. eexists th, _, _. simpl. repeat split; auto. left; simpl; auto.
+      + destruct (prim_cas1 eqb old (a_reg c)); intros [= <-]; eexists th, _, _; simpl; repeat split; auto; left; simpl; auto.
+    - destruct (prim_cas2 eqb ver old new ch (a_reg c)) as [[|] reg]; intros [= <-]; eexists th, _, _; simpl; repeat split; auto; left; simpl; auto.
+    - destruct (prim_load (a_reg c)) as [x|]; [destruct (eqb x old)|]; intros [= <-]; eexists th, _, _; simpl; repeat split; auto; left; simpl; auto.
+    - intros [= <-]. eexists th, _, [EvRes t r]. simpl. repeat split; auto. right. eexists. simpl. auto.
+  Qed.
+
+  Definition rets_ok (c : aconfig V) : Prop :=
+    forall t th, nth_error (a_threads c) t = Some th -> a_rets th = rev (tres t (a_trace c)).
+
+  Lemma astep_rets c t ch c' : rets_ok c -> astep c t ch = Some c' -> rets_ok c'.
+  Proof.
+    intros H Hs. destruct (astep_shape _ _ _ _ Hs) as (th & th' & evs & Hth & -> & -> & Hr).
+    intros t0 th0 H0. destruct (Nat.eq_dec t0 t) as [->|N].
+    - rewrite (nth_error_aset_same _ _ _ _ Hth) in H0. injection H0 as <-.
+      destruct Hr as [(-> & Hn)|(r & -> & ->)].
+      + rewrite tres_no_res by exact Hn. apply H; auto.
+      + simpl. rewrite Nat.eqb_refl. simpl. rewrite (H _ _ Hth). reflexivity.
+    - rewrite nth_error_aset_other in H0 by exact N.
+      destruct Hr as [(_ & Hn)|(r & _ & ->)].
+      + rewrite tres_no_res by exact Hn. apply H; auto.
+      + simpl. apply Nat.eqb_neq in N. rewrite Nat.eqb_sym, N. simpl. apply H; auto.
+  Qed.
+
+  (* the results a goroutine received are exactly its responses in the history, in order *)
+  Theorem rets_are_history progs s t th :
+    nth_error (a_threads (arun (ainit progs) s)) t = Some th ->
+    a_rets th = rev (tres t (a_trace (arun (ainit progs) s))).
+  Proof.
+    assert (G : forall s c, rets_ok c -> rets_ok (arun c s)).
+    { induction s0 as [|[t0 ch] s0 IH]; intros c H; simpl; auto.
+      apply IH. destruct (astep c t0 ch) as [c'|] eqn:E; auto. eapply astep_rets; eauto. }
+    apply G. intros t0 th0 H0. apply nth_error_In in H0. apply in_map_iff in H0 as (p & <- & _). reflexivity.
+  Qed.
 End AtomicProofs.
 
 (* ================================================================== *)
